@@ -9,7 +9,7 @@ from .extract import REPO
 
 ROOT = os.path.dirname(os.path.dirname(os.path.abspath(__file__)))
 DRIVERS = os.path.join(ROOT, 'drivers')
-BUILD = os.path.join(ROOT, '.work', 'drivers')
+BUILD = os.path.join(os.environ.get('YV_WORK', os.path.join(ROOT, '.work')), 'drivers')
 
 
 def last_values(trace):
@@ -215,3 +215,33 @@ def run_generated_program(name, text, note):
         return {'reproduced': None, 'detail': 'replay program timeout', 'input': note}
     return {'reproduced': 'REPRODUCED' in out or p.returncode not in (0,), 'detail': out.strip()[-800:] + (' [exit %d]' % p.returncode),
             'input': note, 'cmd': '%s   # source %s, built by: %s' % (exe, src, info)}
+
+
+def lattice_program(n, base, pcls):
+    """Real registry for a counterexample of slot allocation: classes C0..C(n-1) with the given direct bases
+    (virtual inheritance, so diamonds convert), registered in index order; one uni-method per (method, parameter)
+    pair with one definition returning the pair's number; every applicable call is made and compared."""
+    anc = [[bool(base[d][b]) for b in range(n)] for d in range(n)]
+    for k in range(n):
+        for d in range(n):
+            for b in range(n):
+                if anc[d][k] and anc[k][b]:
+                    anc[d][b] = True
+    order = sorted(range(n), key=lambda c: sum(anc[c]))
+    L = ['#include <yorel/yomm2/keywords.hpp>', '#include <iostream>', 'using namespace yorel::yomm2;']
+    for c in order:
+        bs = [b for b in range(n) if base[c][b]]
+        L.append('struct C%d%s { virtual ~C%d() {} };' % (c, (' : ' + ', '.join('virtual C%d' % b for b in bs)) if bs else '', c))
+    L.append('register_classes(%s);' % ', '.join('C%d' % c for c in range(n)))
+    for p, c in enumerate(pcls):
+        L.append('declare_method(int, m%d, (virtual_<C%d&>));' % (p, c))
+        L.append('define_method(int, m%d, (C%d&)) { return %d; }' % (p, c, p))
+    L.append('int main() { update(); int bad = 0;')
+    for c in range(n):
+        L.append('  { C%d o;' % c)
+        for p, pc in enumerate(pcls):
+            if pc == c or anc[c][pc]:
+                L.append('    { int r = m%d(o); if (r != %d) { std::cout << "m%d(C%d object) ran the definition of m" << r << "\\n"; ++bad; } }' % (p, p, p, c))
+        L.append('  }')
+    L.append('  if (bad) std::cout << "REPRODUCED on real code\\n"; else std::cout << "real library dispatches this lattice correctly\\n"; return 0; }')
+    return '\n'.join(L) + '\n'
